@@ -225,6 +225,8 @@ def build_net(knobs):
             inds_deg[ix] += 1
         # dangling indices (summed over in the 1-norm flavours)
         for t in tens:
+            if not t[0] and rs.random() < knobs.get("p_scalar", 0.0):
+                continue  # a floating scalar: a component of its own
             if not t[0] or rs.random() < knobs.get("p_dangling", 0.15):
                 ix = new_ind("o")
                 t[0].append(ix)
@@ -268,11 +270,18 @@ def build_net(knobs):
             # no messages for it.  L1BP handles neighbour-less sites.
             for k, t in enumerate(tens):
                 if not t[0]:
-                    if fl == "D1BP":
+                    if fl == "D1BP" and not rs.random() < knobs.get("p_scalar", 0.0):
                         j = (k + 1) % len(tens)
                         ix = new_ind()
                         t[0].append(ix)
                         tens[j][0].append(ix)
+    if not sizes:
+        # nothing but floating scalars: no message exists and there is nothing
+        # to propagate - keep at least one index in the network
+        ix = new_ind("o")
+        tens[0][0].append(ix)
+        if fl == "D1BP":
+            tens[-1][0].append(ix) if len(tens) > 1 else tens[0][0].pop()
     rd = data_rng(knobs["data_seed"])
     out = []
     for k, (inds, site) in enumerate(tens):
